@@ -644,6 +644,15 @@ func (ev *symEval) runBlock(fr *symFrame, b *ssa.BasicBlock, idx int, st *symSta
 					}
 				}
 			}
+			if _, valIsArray := x.Val.Type().Underlying().(*types.Array); valIsArray && v.Desc != addr.Desc && v.Desc != "" {
+				// array assignment (also the copy a range statement makes): the known elements go along
+				pre := v.Desc + "["
+				for k, fv := range st.heap {
+					if strings.HasPrefix(k, pre) {
+						st.heap[addr.Desc+"["+strings.TrimPrefix(k, pre)] = fv
+					}
+				}
+			}
 			if !strings.HasPrefix(addr.Desc, "cell:") {
 				st.trace = append(st.trace, Event{Kind: "store", What: addr.Desc, Args: []string{v.Desc}, In: fname(fr.fn)})
 			}
@@ -797,6 +806,13 @@ func (ev *symEval) doCall(fr *symFrame, st *symState, x *ssa.Call) ([]outcome, b
 					base = base[:j+1]
 				}
 				st.heap["written:"+base] = symBool(true)
+			}
+			if strings.HasPrefix(a.Desc, "cell:makeslice#") && ev.sc.Call != nil {
+				// (callees the scenario models write what they write themselves; an unmodelled callee may write anything)
+				if _, modelled := ev.sc.Call(id, args, ev, st.clone()); !modelled {
+					base, _ := sliceBase(a.Desc)
+					st.heap["written:"+base] = symBool(true)
+				}
 			}
 		}
 	}
@@ -1057,6 +1073,14 @@ func (ev *symEval) evalValue(fr *symFrame, st *symState, v ssa.Value) SV {
 	case *ssa.Index:
 		base := ev.val(fr, x.X)
 		i := ev.val(fr, x.Index)
+		if i.K == "int" && i.Known {
+			if base.K == "str" && base.Known && i.N >= 0 && i.N < int64(len(base.S)) {
+				return symInt(int64(base.S[i.N]))
+			}
+			if v, ok := lookupElem(st, base.Desc, i.N); ok { // an element of an array value whose elements are known
+				return v
+			}
+		}
 		return defaultFor(x.Type(), base.Desc+"["+i.Desc+"]")
 	case *ssa.Lookup:
 		base := ev.val(fr, x.X)
